@@ -402,3 +402,271 @@ Proof.
       destruct (vec_update vb e vid idx value (gs_ref info) st) as [[vb1 e1]| |] eqn:Eu; cbn [bind]; [|reflexivity..].
       apply (IH (S idx) vb1 e1 rest s Er). exact (consistent_keys sigs vb vb1 (vec_update_keys _ _ _ _ _ _ _ _ _ Eu) Hc).
 Qed.
+
+(* ------------------------------------------------------------------ records of every value type *)
+(* what one record does: an element of a vector updates the buffer; every other signal is handed to the store directly -
+   std_logic / bit scalars and 8-bit enumerations as one symbol, integers as the 64-bit two's complement of the signed
+   LEB128 number (big endian, 2-state), reals as the 8 bytes of the IEEE double *)
+Inductive eff :=
+| EUpd (vid si : nat) (value : N)
+| ERaw (ref : nat) (data : list byte) (st : states)
+| EReal (ref : nat) (le : list byte).
+
+Fixpoint run_effs (vb : vec_buffer) (e : encoder) (effs : list eff) : outcome (vec_buffer * encoder) :=
+  match effs with
+  | [] => Ok (vb, e)
+  | EUpd vid si value :: r =>
+    do v <- of_option (nth_error (vb_vecs vb) vid);
+    do '(vb', e') <- vec_update vb e vid si value (ve_ref v) (ve_states v);
+    run_effs vb' e' r
+  | ERaw ref data st :: r => do e' <- raw e ref data st; run_effs vb e' r
+  | EReal ref le :: r => do e' <- real_change e ref le; run_effs vb e' r
+  end.
+
+(* a record's payload and what it denotes for a signal of the given decode information *)
+Definition payload_eff (info : ghw_sig) (si : nat) (payload : list byte) : option eff :=
+  match gs_tpe info, payload with
+  | GNine, [g] => option_map (fun v => ERaw (gs_ref info) [v] Nine) (nth_error std_logic_lut (N.to_nat g))
+  | GTwo, [g] => if 1 <? g then None else Some (ERaw (gs_ref info) [g] Two)
+  | GU8, [g] => Some (ERaw (gs_ref info) [g] Two)
+  | (GNineVec | GTwoVec), [g] =>
+      match gs_vec info, vec_value (gs_tpe info) g with
+      | Some vid, Some (value, _) => Some (EUpd vid si value)
+      | _, _ => None
+      end
+  | GLeb, _ => match sleb_read payload with
+               | Some (z, []) => Some (ERaw (gs_ref info) (be_bytes 8 (u64_of_z z)) Two)
+               | _ => None
+               end
+  | GF64, _ => if Nat.eqb (length payload) 8 then Some (EReal (gs_ref info) payload) else None
+  | _, _ => None
+  end.
+
+(* the payload is self-delimiting: whatever follows, the reader consumes exactly it *)
+Definition payload_ok (info : ghw_sig) (payload : list byte) : Prop :=
+  match gs_tpe info with
+  | GLeb => exists z, forall rest, sleb_read (payload ++ rest) = Some (z, rest)
+  | _ => True
+  end.
+
+Lemma read_signal_value_payload sigs si info vb e payload rest ef :
+  nth_error sigs si = Some info -> payload_eff info si payload = Some ef -> payload_ok info payload -> consistent sigs vb ->
+  read_signal_value sigs si vb e (payload ++ rest)
+  = match run_effs vb e [ef] with
+    | Ok (vb', e') => Ok (Some (vb', e', rest))
+    | Err => Err
+    | Panic => Panic
+    end.
+Proof.
+  intros Hi Hp Hok Hc. unfold read_signal_value. rewrite Hi. cbn [of_option bind]. unfold payload_eff in Hp. unfold byte in *.
+  destruct (gs_tpe info) eqn:Et.
+  - (* GNine *) destruct payload as [|g [|x y]]; try discriminate. cbn [app].
+    destruct (nth_error std_logic_lut (N.to_nat g)) as [v|]; [|discriminate]. injection Hp as <-.
+    cbn [of_option bind run_effs]. destruct (raw e (gs_ref info) [v] Nine); cbn [bind]; reflexivity.
+  - (* GNineVec *) destruct payload as [|g [|x y]]; try discriminate. cbn [app].
+    destruct (gs_vec info) as [vid|] eqn:Ev; [|discriminate].
+    destruct (vec_value GNineVec g) as [[value st]|] eqn:Eval; [|discriminate]. injection Hp as <-.
+    rewrite <- Et in Eval. destruct (Hc si info vid Hi Ev g value st Eval) as (v & Hv & Href & Hst).
+    cbn [run_effs]. rewrite Hv. cbn [of_option bind]. rewrite Href, Hst.
+    rewrite Et in Eval. unfold vec_value in Eval.
+    destruct (nth_error std_logic_lut (N.to_nat g)) as [v0|]; [|discriminate]. cbn in Eval. injection Eval as <- <-.
+    cbn [of_option bind].
+    destruct (vec_update vb e vid si v0 (gs_ref info) Nine) as [[vb1 e1]| |]; cbn [bind]; reflexivity.
+  - (* GTwo *) destruct payload as [|g [|x y]]; try discriminate. cbn [app].
+    destruct (1 <? g); [discriminate|]. injection Hp as <-. cbn [run_effs bind].
+    destruct (raw e (gs_ref info) [g] Two); cbn [bind]; reflexivity.
+  - (* GTwoVec *) destruct payload as [|g [|x y]]; try discriminate. cbn [app].
+    destruct (gs_vec info) as [vid|] eqn:Ev; [|discriminate].
+    destruct (vec_value GTwoVec g) as [[value st]|] eqn:Eval; [|discriminate]. injection Hp as <-.
+    rewrite <- Et in Eval. destruct (Hc si info vid Hi Ev g value st Eval) as (v & Hv & Href & Hst).
+    cbn [run_effs]. rewrite Hv. cbn [of_option bind]. rewrite Href, Hst.
+    rewrite Et in Eval. unfold vec_value in Eval. destruct (1 <? g); [discriminate|]. injection Eval as <- <-.
+    cbn [of_option bind].
+    destruct (vec_update vb e vid si g (gs_ref info) Two) as [[vb1 e1]| |]; cbn [bind]; reflexivity.
+  - (* GU8 *) destruct payload as [|g [|x y]]; try discriminate. cbn [app]. injection Hp as <-. cbn [run_effs bind].
+    destruct (raw e (gs_ref info) [g] Two); cbn [bind]; reflexivity.
+  - (* GLeb *) unfold payload_ok in Hok. rewrite Et in Hok. destruct Hok as (z & Hz). unfold byte in *.
+    pose proof (Hz []) as H0. rewrite app_nil_r in H0. rewrite H0 in Hp.
+    rewrite (Hz rest). remember (be_bytes 8 (u64_of_z z)) as data eqn:Edata. injection Hp as <-.
+    cbn [run_effs bind]. destruct (raw e (gs_ref info) data Two); cbn [bind]; reflexivity.
+  - (* GF64 *) destruct (Nat.eqb (length payload) 8) eqn:El; [|discriminate]. injection Hp as <-. apply Nat.eqb_eq in El.
+    assert (Hlt : (length (payload ++ rest) <? 8)%nat = false) by (apply Nat.ltb_ge; rewrite app_length; lia).
+    rewrite Hlt.
+    assert (Hf : firstn 8 (payload ++ rest) = payload).
+    { rewrite <- El. rewrite firstn_app, Nat.sub_diag. cbn [firstn]. rewrite app_nil_r. apply firstn_all. }
+    assert (Hs : skipn 8 (payload ++ rest) = rest).
+    { rewrite <- El. rewrite skipn_app, Nat.sub_diag, skipn_all. reflexivity. }
+    rewrite Hf, Hs. cbn [run_effs bind]. destruct (real_change e (gs_ref info) payload); cbn [bind]; reflexivity.
+Qed.
+
+(* the records of a cycle in general: (distance, payload) *)
+Definition grec_bytes (r : N * list byte) : list byte := leb_write (fst r) ++ snd r.
+
+Fixpoint effs_of (sigs : list ghw_sig) (pos : N) (rs : list (N * list byte)) : option (list eff) :=
+  match rs with
+  | [] => Some []
+  | (delta, payload) :: r =>
+    let pos' := pos + delta in
+    match nth_error sigs (N.to_nat (pos' - 1)) with
+    | Some info =>
+      match payload_eff info (N.to_nat (pos' - 1)) payload, effs_of sigs pos' r with
+      | Some ef, Some s => if Nat.eqb 0 0 then Some (ef :: s) else None
+      | _, _ => None
+      end
+    | None => None
+    end
+  end.
+
+Fixpoint grecs_ok (sigs : list ghw_sig) (pos : N) (rs : list (N * list byte)) : Prop :=
+  match rs with
+  | [] => True
+  | (delta, payload) :: r =>
+    1 <= delta /\ pos + delta < 4294967296 /\
+    (forall info, nth_error sigs (N.to_nat (pos + delta - 1)) = Some info -> payload_ok info payload) /\
+    grecs_ok sigs (pos + delta) r
+  end.
+
+Lemma run_effs_cons vb e ef r :
+  run_effs vb e (ef :: r) = match run_effs vb e [ef] with Ok (vb', e') => run_effs vb' e' r | Err => Err | Panic => Panic end.
+Proof.
+  destruct ef as [vid si value|ref data st|ref le]; cbn [run_effs].
+  - destruct (nth_error (vb_vecs vb) vid) as [v|]; cbn [of_option bind]; [|reflexivity].
+    destruct (vec_update vb e vid si value (ve_ref v) (ve_states v)) as [[vb1 e1]| |]; reflexivity.
+  - destruct (raw e ref data st); reflexivity.
+  - destruct (real_change e ref le); reflexivity.
+Qed.
+
+Lemma run_effs_one_keys vb e ef vb' e' : run_effs vb e [ef] = Ok (vb', e') -> vkeys vb' = vkeys vb.
+Proof.
+  destruct ef as [vid si value|ref data st|ref le]; cbn [run_effs]; intros H.
+  - destruct (nth_error (vb_vecs vb) vid) as [v|]; cbn [of_option bind] in H; [|discriminate].
+    destruct (vec_update vb e vid si value (ve_ref v) (ve_states v)) as [[vb1 e1]| |] eqn:Eu; cbn [bind] in H; try discriminate.
+    injection H as <- <-. exact (vec_update_keys _ _ _ _ _ _ _ _ _ Eu).
+  - destruct (raw e ref data st); cbn [bind] in H; try discriminate. injection H as <- <-. reflexivity.
+  - destruct (real_change e ref le); cbn [bind] in H; try discriminate. injection H as <- <-. reflexivity.
+Qed.
+
+(* the value part of any cycle: the records are carried out one after the other, in file order *)
+Theorem cycle_signals_records sigs : forall rs pos vb e rest effs fuel,
+  effs_of sigs pos rs = Some effs -> grecs_ok sigs pos rs -> consistent sigs vb -> (length rs < fuel)%nat ->
+  cycle_signals fuel sigs pos vb e (concat (map grec_bytes rs) ++ 0 :: rest)
+  = match run_effs vb e effs with
+    | Ok (vb', e') => Ok (Some (vb', e', rest))
+    | Err => Err
+    | Panic => Panic
+    end.
+Proof.
+  induction rs as [|[delta payload] r IH]; intros pos vb e rest effs fuel Hs Hok Hc Hf.
+  - cbn in Hs. injection Hs as <-. destruct fuel as [|f]; [cbn in Hf; lia|].
+    cbn [map concat app cycle_signals run_effs].
+    change (0 :: rest) with (leb_write 0 ++ rest). rewrite leb_roundtrip by lia. reflexivity.
+  - cbn [effs_of] in Hs. cbn [grecs_ok] in Hok. destruct Hok as (Hd & Hp & Hpay & Hok).
+    destruct (nth_error sigs (N.to_nat (pos + delta - 1))) as [info|] eqn:Ei; [|discriminate].
+    destruct (payload_eff info (N.to_nat (pos + delta - 1)) payload) as [ef|] eqn:Ee; [|discriminate].
+    destruct (effs_of sigs (pos + delta) r) as [s|] eqn:Er; [|discriminate]. cbn [Nat.eqb] in Hs. injection Hs as <-.
+    destruct fuel as [|f]; [cbn in Hf; lia|]. cbn [length] in Hf.
+    cbn [map concat cycle_signals]. unfold grec_bytes at 1. cbn [fst snd]. rewrite <- !app_assoc.
+    rewrite leb_roundtrip by lia.
+    replace (delta =? 0) with false by (symmetry; apply N.eqb_neq; lia).
+    replace (18446744073709551616 <=? pos + delta) with false by (symmetry; apply N.leb_gt; lia).
+    rewrite (N.mod_small (pos + delta) 4294967296) by lia.
+    replace (pos + delta =? 0) with false by (symmetry; apply N.eqb_neq; lia).
+    assert (Hlen : (N.to_nat (pos + delta - 1) < length sigs)%nat) by (apply nth_error_Some; rewrite Ei; discriminate).
+    replace (N.of_nat (length sigs) <=? pos + delta - 1) with false by (symmetry; apply N.leb_gt; lia).
+    rewrite (read_signal_value_payload sigs _ info vb e payload _ ef Ei Ee (Hpay info eq_refl) Hc).
+    rewrite (run_effs_cons vb e ef s).
+    destruct (run_effs vb e [ef]) as [[vb1 e1]| |] eqn:E1; cbn [bind]; [|reflexivity..].
+    apply (IH (pos + delta) vb1 e1 rest s f Er Hok); [|lia].
+    exact (consistent_keys sigs vb vb1 (run_effs_one_keys _ _ _ _ _ E1) Hc).
+Qed.
+
+(* ------------------------------------------------------------------ a whole cycle section, records of every type *)
+Record gcyc := mk_gcyc { gc_recs : list (N * list byte); gc_dt_bytes : list byte; gc_dt : Z }.
+Definition gcyc_bytes (c : gcyc) : list byte := concat (map grec_bytes (gc_recs c)) ++ 0 :: gc_dt_bytes c.
+Definition gdt_ok (c : gcyc) : Prop := forall rest, sleb_read (gc_dt_bytes c ++ rest) = Some (gc_dt c, rest).
+
+(* the abstract run: per cycle its time stamp, its records in file order, the end of the time step; the distance to the next
+   time; a negative distance ends the section *)
+Fixpoint run_cycles (lz_compress : list byte -> list byte) (cap : N) (sigs : list ghw_sig) (time : N) (vb : vec_buffer)
+                    (e : encoder) (cs : list gcyc) : outcome (option (vec_buffer * encoder)) :=
+  match cs with
+  | [] => Ok None
+  | c :: r =>
+    match effs_of sigs 0 (gc_recs c) with
+    | None => Ok None
+    | Some effs =>
+      do e1 <- time_change lz_compress cap e time;
+      do '(vb1, e2) <- run_effs vb e1 effs;
+      do '(vb3, e3) <- finish_time_step vb1 e2;
+      if (gc_dt c <? 0)%Z then Ok (Some (vb3, e3))
+      else run_cycles lz_compress cap sigs (u64_wrap (time + Z.to_N (gc_dt c))) vb3 e3 r
+    end
+  end.
+
+Lemma run_effs_keys : forall effs vb e vb' e', run_effs vb e effs = Ok (vb', e') -> vkeys vb' = vkeys vb.
+Proof.
+  induction effs as [|ef r IH]; intros vb e vb' e' H; [cbn in H; injection H as <- <-; reflexivity|].
+  rewrite run_effs_cons in H. destruct (run_effs vb e [ef]) as [[vb1 e1]| |] eqn:E1; try discriminate.
+  rewrite (IH _ _ _ _ H). exact (run_effs_one_keys _ _ _ _ _ E1).
+Qed.
+
+Lemma process_changed_keys : forall cl vecs e vecs' e',
+  process_changed vecs cl e = Ok (vecs', e') -> map (fun v => (ve_ref v, ve_states v)) vecs' = map (fun v => (ve_ref v, ve_states v)) vecs.
+Proof.
+  induction cl as [|id r IH]; intros vecs e vecs' e' H; cbn [process_changed] in H; [injection H as <- <-; reflexivity|].
+  destruct (nth_error vecs id) as [v|] eqn:Ev; cbn [of_option bind] in H; [|discriminate].
+  destruct (ve_signal_change v).
+  - destruct (raw e (ve_ref v) (ve_data v) (ve_states v)) as [e1| |]; cbn [bind] in H; try discriminate.
+    rewrite (IH _ _ _ _ H). apply (map_update_same (fun v => (ve_ref v, ve_states v)) _ id _ v Ev). reflexivity.
+  - exact (IH _ _ _ _ H).
+Qed.
+
+Lemma finish_keys vb e vb' e' : finish_time_step vb e = Ok (vb', e') -> vkeys vb' = vkeys vb.
+Proof.
+  unfold finish_time_step. intros H.
+  destruct (process_changed (vb_vecs vb) (vb_change_list vb) e) as [[vecs e1]| |] eqn:E; cbn [bind] in H; try discriminate.
+  injection H as <- <-. unfold vkeys. cbn [vb_vecs]. exact (process_changed_keys _ _ _ _ _ E).
+Qed.
+
+Lemma grec_bytes_length rs : (length rs <= length (concat (map grec_bytes rs)))%nat.
+Proof.
+  induction rs as [|[d p] rs IH]; cbn [map concat length]; [lia|]. rewrite app_length. unfold grec_bytes at 1. cbn [fst snd].
+  rewrite app_length. assert (1 <= length (leb_write d))%nat.
+  { unfold leb_write. cbn [leb_write_fuel]. destruct (d / 128 =? 0); cbn [length]; lia. }
+  lia.
+Qed.
+
+Theorem cycle_loop_records lz_compress cap sigs : forall cs time vb e rest fuel,
+  cs <> [] -> Forall gdt_ok cs -> Forall (fun c => grecs_ok sigs 0 (gc_recs c) /\ effs_of sigs 0 (gc_recs c) <> None) cs ->
+  (forall c, In c (removelast cs) -> (0 <= gc_dt c)%Z) -> (gc_dt (last cs (mk_gcyc [] [] 0)) < 0)%Z ->
+  consistent sigs vb -> (length cs <= fuel)%nat ->
+  cycle_loop lz_compress cap fuel sigs time vb e (concat (map gcyc_bytes cs) ++ rest)
+  = match run_cycles lz_compress cap sigs time vb e cs with
+    | Ok (Some (vb', e')) => Ok (Some (vb', e', rest))
+    | Ok None => Ok None
+    | Err => Err
+    | Panic => Panic
+    end.
+Proof.
+  induction cs as [|c cs IH]; intros time vb e rest fuel Hne Hdt Hrecs Hpos Hlast Hc Hf; [now elim Hne|].
+  destruct fuel as [|f]; [cbn in Hf; lia|]. cbn [length] in Hf.
+  apply Forall_cons_iff in Hdt as [Hdt0 Hdt]. apply Forall_cons_iff in Hrecs as [[Hok0 Heff] Hrecs].
+  cbn [map concat cycle_loop run_cycles].
+  destruct (effs_of sigs 0 (gc_recs c)) as [effs|] eqn:Ee; [|now elim Heff].
+  destruct (time_change lz_compress cap e time) as [e1| |]; cbn [bind]; [|reflexivity..].
+  change (gcyc_bytes c) with (concat (map grec_bytes (gc_recs c)) ++ 0 :: gc_dt_bytes c). rewrite <- !app_assoc. cbn [app].
+  rewrite (cycle_signals_records sigs (gc_recs c) 0 vb e1 (gc_dt_bytes c ++ concat (map gcyc_bytes cs) ++ rest) effs _ Ee Hok0 Hc)
+    by (rewrite app_length; pose proof (grec_bytes_length (gc_recs c)); lia).
+  destruct (run_effs vb e1 effs) as [[vb1 e2]| |] eqn:Er; cbn [bind]; [|reflexivity..].
+  destruct (finish_time_step vb1 e2) as [[vb3 e3]| |] eqn:Efin; cbn [bind]; [|reflexivity..].
+  rewrite (Hdt0 _).
+  destruct (gc_dt c <? 0)%Z eqn:Edt.
+  - (* the last cycle *)
+    destruct cs as [|c2 cs2]; [cbn [map concat app]; reflexivity|].
+    exfalso. apply Z.ltb_lt in Edt. assert (0 <= gc_dt c)%Z by (apply Hpos; cbn [removelast]; now left). lia.
+  - destruct cs as [|c2 cs2]; [cbn [last] in Hlast; apply Z.ltb_ge in Edt; lia|].
+    apply (IH _ vb3 e3 rest f ltac:(discriminate) Hdt Hrecs); [| | |lia].
+    + intros c0 Hin. apply Hpos. cbn [removelast] in Hin |- *. now right.
+    + exact Hlast.
+    + apply (consistent_keys sigs vb vb3); [|exact Hc]. rewrite (finish_keys _ _ _ _ Efin). exact (run_effs_keys _ _ _ _ _ Er).
+Qed.
